@@ -13,22 +13,24 @@ import (
 
 // Summary is written next to the observations (not judged; coverage bookkeeping for the evidence file).
 type Summary struct {
-	Pairs        int      `json:"pairs"`
-	PairEvals    int      `json:"pair_evals"`
-	Accepted     int      `json:"accepted_pairs"`
-	ResRejected  int      `json:"resrej_pairs"`
-	GatePairs    int      `json:"gate_pairs"`
-	GateSubmits  int      `json:"gate_submits"`
-	GateAccepted int      `json:"gate_accepted"`
-	HashBases    int      `json:"hash_bases"`
-	HashLines    int      `json:"hash_lines"`
-	HashMutants  int      `json:"hash_mutants"`
-	Sites        []string `json:"sites"`  // distinct mutated field paths (indices stripped) with their operations
-	Opaque       []string `json:"opaque"` // fields reflection could not set (none expected)
-	SDLFiles     int      `json:"sdl_files"`
-	SDLPairs     int      `json:"sdl_pairs"`
-	SDLAccepted  int      `json:"sdl_accepted"`
-	Lines        int      `json:"lines"`
+	Pairs         int      `json:"pairs"`
+	PairEvals     int      `json:"pair_evals"`
+	Accepted      int      `json:"accepted_pairs"`
+	ResRejected   int      `json:"resrej_pairs"`
+	GatePairs     int      `json:"gate_pairs"`
+	GateSubmits   int      `json:"gate_submits"`
+	GateAccepted  int      `json:"gate_accepted"`
+	Batches       int      `json:"gate_batches"`  // scenarios with several submissions queued behind a held chain query
+	Announcements int      `json:"announcements"` // event.ManifestReceived observed on the real bus
+	HashBases     int      `json:"hash_bases"`
+	HashLines     int      `json:"hash_lines"`
+	HashMutants   int      `json:"hash_mutants"`
+	Sites         []string `json:"sites"`  // distinct mutated field paths (indices stripped) with their operations
+	Opaque        []string `json:"opaque"` // fields reflection could not set (none expected)
+	SDLFiles      int      `json:"sdl_files"`
+	SDLPairs      int      `json:"sdl_pairs"`
+	SDLAccepted   int      `json:"sdl_accepted"`
+	Lines         int      `json:"lines"`
 }
 
 // Main is the entry point of `vh mmatch ...`.
@@ -171,10 +173,21 @@ func run(in, out, sumPath string, seed int64, nGate, nHash, perms, schemes int, 
 			if as := accScheme[i]; len(as) > 0 { // a scheme under which the direct call accepted: the gate is then decisive
 				sc = as[n%len(as)]
 			}
-			err := env.RunGate(i, &pairs[i], raws[i].D, raws[i].M, sc, hashes, -1, func(l GateLine) error {
+			err := env.RunGate(i, &pairs[i], raws[i].D, raws[i].M, sc, hashes, func(l GateLine) error {
 				s.GateSubmits++
+				s.Announcements += len(l.Announced)
 				if l.Accepted {
 					s.GateAccepted++
+				}
+				return w.Write(l)
+			}, func(l BatchLine) error {
+				s.Batches++
+				s.Announcements += len(l.Announced)
+				for _, b := range l.Subs {
+					s.GateSubmits++
+					if b.Accepted {
+						s.GateAccepted++
+					}
 				}
 				return w.Write(l)
 			})
